@@ -903,11 +903,34 @@ func c11Work(t *testing.T) string {
 // TestVerifC11Cases: legs G / reproducers / replay.  C11_IN = programs (ndjson, {"toks":[...]}),
 // C11_OUT = trace.  The programs are distributed over C11_PAR child processes.
 func TestVerifC11Cases(t *testing.T) {
+	if os.Getenv("C11_IN") == "" {
+		t.Skip("no C11_IN")
+	}
 	progs, err := c11ReadProgs(os.Getenv("C11_IN"))
 	if err != nil {
 		t.Fatal(err)
 	}
 	c11RunParallel(t, progs, os.Getenv("C11_OUT"))
+}
+
+// TestVerifC11Repro: the pinned reproducers of the open findings (C11_REPRO_IN -> C11_REPRO_OUT), one
+// child process per program: each of them may kill its process.
+func TestVerifC11Repro(t *testing.T) {
+	if os.Getenv("C11_REPRO_IN") == "" {
+		t.Skip("no C11_REPRO_IN")
+	}
+	progs, err := c11ReadProgs(os.Getenv("C11_REPRO_IN"))
+	if err != nil {
+		t.Fatal(err)
+	}
+	out := os.Getenv("C11_REPRO_OUT")
+	os.Remove(out)
+	if err := c11RunIsolated(progs, out, c11Work(t), "repro"); err != nil {
+		t.Fatal(err)
+	}
+	if len(progs) == 0 {
+		os.WriteFile(out, nil, 0644)
+	}
 }
 
 func c11RunParallel(t *testing.T, progs []c11Prog, outPath string) {
